@@ -163,17 +163,31 @@ def deStr (valid : List UInt8 → Bool) (input : List UInt8) : DeOut :=
 
 /-- Row predicate of the borsh reader table: the `byt` reader has a `u32` prefix, reads byte by
 byte and reserves at most `min(len, c)` with `c ≤ limit`; the `str` reader validates. -/
-def borshDeRowOk (limit : Nat) (r : BorshDeRow) : Bool :=
+def borshShapeRowOk (limit : Nat) (r : BorshDeRow) : Bool :=
   match r.shape with
   | .reader k _ (.minLen c) perByte _ => r.kind == .byt && k == 4 && perByte && c ≤ limit
   | .reader _ _ .exact _ _ => false
   | .viaBytThenValidate => r.kind == .str
   | .viaBytUnchecked => false
+  | .other => false
+
+/-- The call transfers all the bytes or fails (never a silent short read/write). -/
+def IoCall.exact : IoCall → Bool
+  | .delegate _ | .readExact | .writeAll => true
+  | .read | .write | .other _ => false
+
+/-- Full row predicate of the borsh reader table: the shape is the safe one, every use of the
+reader is exact (`read_exact`-style: delegation to borsh's primitives) and the body has no
+`unsafe` block. -/
+def borshDeRowOk (limit : Nat) (r : BorshDeRow) : Bool :=
+  borshShapeRowOk limit r && r.io.all IoCall.exact && !r.usesUnsafe
 
 /-- Row predicate of the borsh writer table. -/
 def borshSerRowOk (r : BorshSerRow) : Bool :=
-  match r.shape with
-  | .sliceU8 => r.kind == .byt || r.kind == .str
+  (match r.shape with
+   | .sliceU8 => r.kind == .byt || r.kind == .str
+   | .other => false) &&
+  r.io.all IoCall.exact && !r.usesUnsafe
 
 /-- The cap of the `byt` reader's up-front reservation, as read from the source. -/
 def borshCap (rows : List BorshDeRow) : Option Nat :=
@@ -420,6 +434,7 @@ borrowed visitor exactly for `borrow_deserialize`, and the hint is the type's ow
 `OsString` is only used by `HipOsStr`; a crate delegate is a *visitor* row of the same entry
 kind. -/
 def deRowOk (vs : List VisitorRow) (ds : List DeRow) (r : DeRow) : Bool :=
+  !r.overridesInPlace &&
   match r.target with
   | .visitor h id =>
     (match findVisitor vs id with
@@ -514,6 +529,7 @@ def rowReport : List (String × Bool) :=
   (match findVisitor vs .strOwned, findVisitor vs .strBorrowed with
    | some a, some b => [(b.loc ++ " (owned/borrowed pair)", pairOk a b)]
    | _, _ => [("src/string/serde.rs (missing visitor)", false)]) ++
+  Gen.Visitors.auxVisitors.map (fun a => (a.loc ++ " (unmodelled visitor " ++ a.name ++ ")", false)) ++
   ds.map (fun r => (r.loc, deRowOk vs ds r)) ++
   [("Deserialize table complete", deTableComplete ds)] ++
   Gen.Visitors.serRows.map (fun r => (r.loc, serRowOk r)) ++
